@@ -57,10 +57,10 @@ def _rerun_unstable(run):
 
 CHECK = {
     "suites": [
-        suite("consensus", "c17", 22, 240, stdin=True, args=["-suite", "consensus"], timeout={"quick": 600, "thorough": 1500}),
-        suite("fault", "c17", 14, 120, stdin=True, args=["-suite", "fault"], timeout={"quick": 600, "thorough": 1500}),
+        suite("consensus", "c17", 16, 240, stdin=True, args=["-suite", "consensus"], timeout={"quick": 600, "thorough": 1500}),
+        suite("fault", "c17", 12, 120, stdin=True, args=["-suite", "fault"], timeout={"quick": 600, "thorough": 1500}),
         suite("conc", "c17", 8, 90, stdin=True, args=["-suite", "conc"], timeout={"quick": 600, "thorough": 1500}),
-        suite("join", "c17", 6, 120, stdin=True, args=["-suite", "join"], timeout={"quick": 600, "thorough": 1500}),
+        suite("join", "c17", 4, 120, stdin=True, args=["-suite", "join"], timeout={"quick": 600, "thorough": 1500}),
         suite("cluster", "c17", 5, 100, stdin=True, args=["-suite", "cluster"], timeout={"quick": 600, "thorough": 2400}),
     ],
     "gen": [{"pkg": "extract_c17", "out": "lean/ClusterVerif/Gen/C17.lean"}],
